@@ -26,7 +26,7 @@ DEFAULT_FEATURES = {
     "refined": 4, "cls": 6, "list": 2, "annlist": 3, "tuple": 0, "union": 1, "dependent": 0, "flaky": 0,
     "weights": 0, "nested": 1, "standalone": 1, "unreachable": 1, "plain": 1, "infeasible": 0,
     "max_abstract": 3, "max_classes": 9, "max_fields": 3, "future_annotations": 0, "concrete_start": 0,
-    "base_in_list": 1, "finite": 0, "nested_generic": 0, "nested_list": 0, "deep_chain": 0, "self_ref": 0, "multi_dependent": 0, "abstract_weights": 0, "nested_start": 0, "hollow": 0, "barren": 0, "falsy": 0, "wide_weights": 0, "inherited_ctor": 0,
+    "base_in_list": 1, "finite": 0, "nested_generic": 0, "nested_list": 0, "deep_chain": 0, "self_ref": 0, "multi_dependent": 0, "abstract_weights": 0, "nested_start": 0, "hollow": 0, "barren": 0, "falsy": 0, "wide_weights": 0, "inherited_ctor": 0, "zero_rules": 0,
 }
 
 
@@ -288,6 +288,11 @@ def gen_spec(H: Chooser, feat=None) -> dict:
         classes.append({"name": "U1", "kind": "data", "parent": "U0", "weight": None, "fields": [["f0", ["int"]]]})
         if H.draw(2):
             classes.append({"name": "U2", "kind": "data", "parent": None, "weight": None, "fields": [["f0", ["cls", "A0"]]]})
+    if feat.get("zero_rules") and H.draw(4) == 0:
+        # a nested abstract type ALL of whose productions are declared with weight zero (nothing to normalise in that rule)
+        classes.append({"name": "AZ", "kind": "deco", "parent": H.pick(abstracts), "weight": None, "fields": [], "weight_first": False})
+        for j in range(1 + H.draw(2)):
+            classes.append({"name": f"Z{j}", "kind": "data", "parent": "AZ", "weight": 0.0, "fields": [["f0", ["bool"]]] if H.draw(2) else []})
     if feat.get("inherited_ctor") and H.draw(3) == 0:
         # an abstract dataclass that declares the fields, and concrete productions that only inherit its constructor
         flds = gen_fields(list(abstracts)) or [["f0", ["bool"]]]
